@@ -56,6 +56,9 @@ type vkNet struct {
 	// a crashed host is frozen, not gone: its address still accepts connections, nothing ever reads them
 	// members live on IPv6 addresses
 	v6        bool
+	// per-node operation logs written by the instrumented state.go (under each node's own lock)
+	lmu  sync.Mutex
+	logs map[int]*vkLog
 	stall     bool
 	stallLim  time.Duration
 	held      []net.Conn
@@ -521,6 +524,119 @@ func (d *vkDel) GetBroadcasts(overhead, limit int) [][]byte {
 func (d *vkDel) LocalState(bool) []byte          { return nil }
 func (d *vkDel) MergeRemoteState([]byte, bool)   {}
 
+
+// ---- per-node operation logs --------------------------------------------------------------------------
+// When the check overlays an instrumented copy of state.go, aliveNode / suspectNode / deadNode / resetNodes call
+// these hooks right after taking the node lock, so a node's log is the linearised sequence of its membership
+// operations.  The log of (the first life of) a few nodes per simulated cluster is replayed through Core.step
+// in Coq and the node's records at the end of the log must be what the model computes (code 63).
+type vkLog struct {
+	owner *Memberlist
+	ops   [][]int64
+	final [][]int64
+	done  bool
+	bad   bool // something the replay does not express (a foreign version vector)
+}
+
+const vkLogMax = 800
+
+func vfInstrumented() bool { return true }
+
+func vkAddrNum(ip net.IP, port uint16) int64 {
+	n := int64(0)
+	if len(ip) > 0 {
+		n = int64(ip[len(ip)-1])
+	}
+	if len(ip) == 16 && ip.To4() == nil {
+		n += 256
+	}
+	if port != 7946 {
+		n += 512
+	}
+	return n
+}
+
+func vkRecords(m *Memberlist) [][]int64 {
+	var out [][]int64
+	for name, s := range m.nodeMap {
+		out = append(out, []int64{vkID(name), int64(s.Incarnation), int64(s.State), vkAddrNum(s.Addr, s.Port), vkMetaNum(s.Meta)})
+	}
+	out = append(out, []int64{-1, int64(m.incarnation.Load()), vkBool(m.hasLeft())})
+	return out
+}
+
+// called with m.nodeLock held for writing
+func vkLogOp(m *Memberlist, op []int64, bad bool) {
+	tr, ok := m.config.Transport.(*vkTr)
+	if !ok {
+		return
+	}
+	n := tr.n
+	n.lmu.Lock()
+	lg := n.logs[tr.id]
+	if lg != nil && lg.owner == nil {
+		lg.owner = m
+	}
+	n.lmu.Unlock()
+	if lg == nil || lg.owner != m || lg.done {
+		return
+	}
+	if len(lg.ops) >= vkLogMax {
+		// the state before this operation is the state after the logged ones
+		lg.final = vkRecords(m)
+		lg.done = true
+		return
+	}
+	if bad {
+		lg.bad = true
+	}
+	row := append([]int64{int64(time.Since(n.t0)), vkBool(m.hasLeft())}, op...)
+	lg.ops = append(lg.ops, row)
+}
+
+var vkStdVsn = []byte{1, 5, 2, 0, 0, 0}
+
+func vfHookAlive(m *Memberlist, a *alive, bootstrap bool) {
+	vkLogOp(m, []int64{0, vkID(a.Node), int64(a.Incarnation), vkAddrNum(a.Addr, a.Port), vkMetaNum(a.Meta), vkBool(bootstrap)}, !bytes.Equal(a.Vsn, vkStdVsn))
+}
+func vfHookSuspect(m *Memberlist, s *suspect) {
+	vkLogOp(m, []int64{1, vkID(s.Node), int64(s.Incarnation), vkID(s.From), 0, 0}, false)
+}
+func vfHookDead(m *Memberlist, d *dead) {
+	vkLogOp(m, []int64{2, vkID(d.Node), int64(d.Incarnation), vkID(d.From), 0, 0}, false)
+}
+func vfHookReset(m *Memberlist) {
+	vkLogOp(m, []int64{3, 0, 0, 0, 0, 0}, false)
+}
+
+// rows: kind 20 = one logged operation, kind 21 = one record at the end of the log, kind 22 = counter / flag / usable
+func (s *vkSim) emitLogs() {
+	vn := s.vn
+	for id, lg := range vn.logs {
+		if lg.owner == nil {
+			continue
+		}
+		if !lg.done {
+			lg.owner.nodeLock.Lock()
+			lg.final = vkRecords(lg.owner)
+			lg.done = true
+			lg.owner.nodeLock.Unlock()
+		}
+		vn.mu.Lock()
+		for _, op := range lg.ops {
+			vn.logEv(append([]int64{0, 20, int64(id)}, op...)...)
+		}
+		for _, r := range lg.final {
+			if r[0] < 0 {
+				vn.logEv(0, 22, int64(id), r[1], r[2], vkBool(lg.bad))
+			} else {
+				vn.logEv(append([]int64{0, 21, int64(id)}, r...)...)
+			}
+		}
+		vn.mu.Unlock()
+	}
+}
+
 // ---- a case ----
 // cfg: [kind; N; PI_ms; ptdiv; indirect; flags(1 tcp pings off, 2 compression, 4 encryption, 8 label); aw_max;
 //       susp_max_mult; settle_ms; mult_0; smin_0 (ms, suspicionTimeout(mult_0, N, PI)); mult_1; smin_1; ...]
@@ -728,6 +844,12 @@ func vkRun(t *testing.T, c *vfCase, st *vfStats) {
 	}
 	vn.unreach = c.Cfg[5]&vkUnreach != 0
 	vn.slowWrite = c.Cfg[5]&vkSlowWrite != 0
+	vn.logs = map[int]*vkLog{}
+	if c.Cfg[0] == 2 && os.Getenv("VF_INSTR") != "" {
+		for i := 0; i < 3 && i < N; i++ {
+			vn.logs[i] = &vkLog{}
+		}
+	}
 	vn.stall = c.Cfg[5]&vkStall != 0
 	vn.v6 = c.Cfg[5]&vkV6 != 0
 	vn.stuck = map[*vkStuck]time.Time{}
@@ -858,6 +980,7 @@ func vkRun(t *testing.T, c *vfCase, st *vfStats) {
 			s.snapshot(8, 9)
 		case 11:
 			s.final()
+			s.emitLogs()
 		case 12:
 			vn.mu.Lock()
 			vn.cut = a
